@@ -518,6 +518,12 @@ fn run_local_worker(worker: &Worker, id: usize, parker: Parker, abort_signal: Si
         loop {
             // Signal barrier: park until notified to continue or terminate.
 
+            // Publish this thread's message count before the worker can be seen
+            // as inactive: the executor thread reads the global count as soon
+            // as the pool looks idle, so a count published after deactivation
+            // may be missed.
+            update_msg_count();
+
             // Try to deactivate the worker.
             #[cfg(nexosim_verif)]
             crate::verif_hooks::protocol_point(0);
@@ -526,7 +532,6 @@ fn run_local_worker(worker: &Worker, id: usize, parker: Parker, abort_signal: Si
                 // thread that unparked the worker.
                 #[cfg(nexosim_verif)]
                 crate::verif_hooks::protocol_point(1);
-                update_msg_count();
                 parker.park();
             } else if injector.is_empty() {
                 // This worker could not be deactivated because it was the last
@@ -540,7 +545,6 @@ fn run_local_worker(worker: &Worker, id: usize, parker: Parker, abort_signal: Si
                 pool_manager.set_all_workers_inactive();
                 #[cfg(nexosim_verif)]
                 crate::verif_hooks::protocol_point(3);
-                update_msg_count();
                 executor_unparker.unpark();
                 parker.park();
                 // No need to call `begin_worker_search()`: this was done by the
